@@ -18,3 +18,22 @@ pub open spec fn range_params_ok(p: RangeConstraintParameters) -> bool {
     forall|i: int| 0 <= i < 128 ==> ps_valid(p.public_key.g2, p.public_key.x2, (*p.public_key.y2s)@, seq![s_int(i)],
         #[trigger] (*p.digit_signatures)@[i].sigma1, (*p.digit_signatures)@[i].sigma2)
 }
+
+pub open spec fn range_digit(value: int, j: int) -> int { (value / pow128(j as nat)) % 128 }
+
+/// commit phase of a range constraint on `value`: digit j is proved on the published signature for that digit,
+/// and the cumulative commitment scalar is the weighted sum of the digit commitment scalars
+pub open spec fn rcb_ok(b: RangeConstraintBuilder, params: RangeConstraintParameters, value: int) -> bool {
+    &&& forall|j: int| 0 <= j < 9 ==> {
+            let d = range_digit(value, j);
+            &&& cpb_commit_core((#[trigger] (*b.digit_proof_builders)@[j]).commitment_proof_builder, params.public_key.g2, (*params.public_key.y2s)@, seq![s_int(d)])
+            &&& exists|r: Scalar| spb_blinded_from((*b.digit_proof_builders)@[j], (*params.digit_signatures)@[d], r)
+        }
+    &&& b.commitment_scalar == wsum(s_int(128), rcb_cs(b), 9)
+}
+
+/// response phase of a range constraint
+pub open spec fn rc_response_ok(rc: RangeConstraint, b: RangeConstraintBuilder, c: Scalar) -> bool {
+    forall|j: int| 0 <= j < 9 ==> (#[trigger] (*rc.digit_proofs)@[j]).blinded_signature == (*b.digit_proof_builders)@[j].blinded_signature
+        && cp_response_ok((*rc.digit_proofs)@[j].commitment_proof, (*b.digit_proof_builders)@[j].commitment_proof_builder, c)
+}
